@@ -4,7 +4,8 @@
      part 2  the edges of the lattice by number; neighbours in the sense of Graph/GraphModel.v are steps along drawn segments
      part 3  sl_walkd, the walk of Rules_slalom.slalom_walk with the direction in which each cell is left; on a single
              loop through the start it lists every cell of the loop exactly once, consecutive cells are joined by drawn
-             segments, it never turns back, and its last step leads to the start (sl_walk_structure)
+             segments, it never turns back, and its last step leads to the start (walk_trail, then sl_F_nodup / sl_F_chain /
+             sl_F_last / sl_F_dirs / sl_F_cover)
    Everything here is orientation-free (no solver variables). *)
 From Coq Require Import ZArith List Bool Arith Lia.
 From Cspuz Require Import Graph.GraphModel Graph.ReachProofs Graph.Cycle Graph.CycleCert Graph.CycleSpec
